@@ -80,10 +80,12 @@ structure Cfg where
   /-- `_handle_key`/`_handle_mouse` walk a counted snapshot of the children, test `_is_shown`, and `_handle_mouse`
       returns a counted reference that `on_term_mouse` drops (the input engine's repairs 699581d, ce3ad0b, e6702a2) -/
   snapshotRouting : Bool
+  /-- `tickit_pen_copy` holds a reference on `src` while it runs (fixes/C08_pen_copy_keeps_src.patch) -/
+  penCopyKeepsSrc : Bool := false
 deriving Repr, DecidableEq, Inhabited
 
-def Cfg.orig : Cfg := ⟨false, false, false, false, false, false, false⟩
-def Cfg.fixed : Cfg := ⟨true, true, true, true, true, true, true⟩
+def Cfg.orig : Cfg := ⟨false, false, false, false, false, false, false, false⟩
+def Cfg.fixed : Cfg := ⟨true, true, true, true, true, true, true, true⟩
 
 /-- What an `int` of freshly `malloc`ed memory reads as in the sanitizer build the harness runs
     (AddressSanitizer fills new allocations with `0xbe`): `(int)0xbebebebe`.  Only used to mirror the tree
@@ -144,12 +146,28 @@ structure WinX where
   /-- the references the application holds (the harness's tally: create +1, ref +1, unref -1, and -1 when a
       destroyed parent takes the creation reference of a child still linked to it) -/
   appRefs : Nat := 1
-  /-- the window this one was created under -/
-  cparent : Option Id := none
-  /-- the application has closed this window itself -/
-  detached : Bool := false
-  /-- its destroyed parent has taken the creation reference -/
-  consumed : Bool := false
+deriving Repr, Inhabited
+
+/-- What an ON_CHANGE handler of a pen does: drop or take a reference to a pen. -/
+inductive PAct where
+  | unref (k : Nat)
+  | ref (k : Nat)
+deriving Repr, Inhabited, DecidableEq
+
+/-- A binding of a pen (all are `TICKIT_PEN_ON_CHANGE`, flags 0). -/
+structure PBind where
+  id : Int
+  acts : List PAct
+deriving Repr, Inhabited
+
+/-- The part of `struct TickitPen` the lifecycle depends on: the foreground colour (index and RGB8, which decide
+    what `tickit_pen_copy` does), the freeze count, the pending-change flag and the bindings. -/
+structure PenX where
+  fg : Option Int := none                      -- valid.fgindex / fgindex
+  rgb : Option (Nat × Nat × Nat) := none       -- valid.fg_rgb8 / fg_rgb8
+  freeze : Nat := 0
+  changed : Bool := false
+  binds : List PBind := []
 deriving Repr, Inhabited
 
 /-- `struct TickitString`. -/
@@ -188,6 +206,7 @@ structure St where
   tree : Tree := {}
   wx : Array WinX := #[]
   pens : Array Obj := #[]
+  penx : Array PenX := #[]
   strs : Array StrObj := #[]
   rbs : Array RBObj := #[]
   term : Obj := {}
@@ -409,6 +428,177 @@ def penRef (st : St) (k : Nat) : Out St :=
     if p.freed then .ub .mem s!"use of freed pen {k}"
     else pure { st with pens := st.pens.setIfInBounds k { p with refcount := p.refcount + 1 } }
 
+/-! ### pens: change events, freeze/thaw (`src/pen.c`) -/
+
+def getPX (st : St) (k : Nat) : PenX := st.penx[k]?.getD {}
+def setPX (st : St) (k : Nat) (x : PenX) : St := { st with penx := st.penx.setIfInBounds k x }
+
+def heldP (st : St) (k : Nat) : Bool :=
+  match st.pens[k]? with
+  | none => false
+  | some p => !p.freed && p.appRefs > 0
+
+/-- One API call of an ON_CHANGE handler (`none`: the harness skips it). -/
+def penAct (st : St) : PAct → Option (Out St)
+  | .unref k => if heldP st k then
+      let p := st.pens[k]?.getD {}
+      some (penUnref { st with pens := st.pens.setIfInBounds k { p with appRefs := p.appRefs - 1 } } k) else none
+  | .ref k => if heldP st k then
+      let p := st.pens[k]?.getD {}
+      some (penRef { st with pens := st.pens.setIfInBounds k { p with appRefs := p.appRefs + 1 } } k) else none
+
+def runPenActs : St → List PAct → Out St
+  | st, [] => pure st
+  | st, a :: rest =>
+    match penAct st a with
+    | none => runPenActs st rest
+    | some r => do
+      let st ← r
+      runPenActs st rest
+
+/-- `run_events(pen, TICKIT_PEN_ON_CHANGE, NULL)`: every binding in list order (the caller holds a reference). -/
+def runPenEvents (st : St) (k : Nat) : Out St := do
+  let _ ← penRef st k >>= fun _ => (pure () : Out Unit)       -- `&pen->bindings`: the pen is read
+  let rec go : St → List PBind → Out St
+    | st, [] => pure st
+    | st, b :: rest => do
+      let st := { st with log := st.log ++ [s!"P{k}c"] }
+      let st ← runPenActs st b.acts
+      go st rest
+  let st ← go st (getPX st k).binds
+  let _ ← penRef st k >>= fun _ => (pure () : Out Unit)       -- `bindings->is_iterating = was_iterating`
+  pure st
+
+/-- `emit_change`: `tickit_pen_ref(pen); run_events(...); tickit_pen_unref(pen);` -/
+def emitChange (st : St) (k : Nat) : Out St := do
+  let st ← penRef st k
+  let st ← runPenEvents st k
+  penUnref st k
+
+/-- `changed`. -/
+def penChanged (st : St) (k : Nat) : Out St := do
+  let _ ← penRef st k >>= fun _ => (pure () : Out Unit)
+  if (getPX st k).freeze = 0 then emitChange st k
+  else pure (setPX st k { getPX st k with changed := true })
+
+/-- `freeze`. -/
+def penFreeze (st : St) (k : Nat) : Out St := do
+  let st ← penRef st k
+  pure (setPX st k { getPX st k with freeze := (getPX st k).freeze + 1 })
+
+/-- `thaw`. -/
+def penThaw (st : St) (k : Nat) : Out St := do
+  let _ ← penRef st k >>= fun _ => (pure () : Out Unit)
+  let st := setPX st k { getPX st k with freeze := (getPX st k).freeze - 1 }
+  let st ← if (getPX st k).freeze = 0 && (getPX st k).changed then
+      runPenEvents (setPX st k { getPX st k with changed := false }) k
+    else pure st
+  penUnref st k
+
+/-- `tickit_pen_set_colour_attr(pen, FG, val)`: emits even while frozen. -/
+def penSetColour (st : St) (k : Nat) (val : Int) : Out St := do
+  let _ ← penRef st k >>= fun _ => (pure () : Out Unit)
+  emitChange (setPX st k { getPX st k with fg := some val, rgb := none }) k
+
+/-- `tickit_pen_set_colour_attr_rgb8(pen, FG, rgb)`. -/
+def penSetRgb (st : St) (k : Nat) (rgb : Nat × Nat × Nat) : Out St := do
+  let _ ← penRef st k >>= fun _ => (pure () : Out Unit)
+  if (getPX st k).fg.isNone then pure st
+  else penChanged (setPX st k { getPX st k with rgb := some rgb }) k
+
+/-- `tickit_pen_copy_attr(dst, src, FG)`. -/
+def penCopyAttr (st : St) (dst src : Nat) : Out St := do
+  let _ ← penRef st src >>= fun _ => (pure () : Out Unit)        -- src is read first
+  let sx := getPX st src
+  let st ← penFreeze st dst
+  let st ← penSetColour st dst (sx.fg.getD (-1))
+  let st ← match (if sx.fg.isSome then sx.rgb else none) with
+    | some rgb => penSetRgb st dst rgb
+    | none => pure st
+  penThaw st dst
+
+/-- `tickit_pen_equiv_attr(a, b, FG)` on the values. -/
+def fgEquiv (a b : PenX) : Bool :=
+  a.fg.getD (-1) == b.fg.getD (-1) &&
+  (let ra := if a.fg.isSome then a.rgb else none
+   let rb := if b.fg.isSome then b.rgb else none
+   ra == rb)
+
+/-- `tickit_pen_copy(dst, src, overwrite)`: only FG is ever set in this engine; the loop goes on reading `src` for
+    the remaining attributes after the handlers of `dst` have run. -/
+def penCopy (keepsSrc : Bool) (st : St) (dst src : Nat) (overwrite : Bool) : Out St := do
+  let st ← if keepsSrc then penRef st src else pure st
+  let st ← penFreeze st dst
+  let _ ← penRef st src >>= fun _ => (pure () : Out Unit)        -- tickit_pen_has_attr(src, FG)
+  let sx := getPX st src
+  let dx := getPX st dst
+  let st ← if sx.fg.isNone then pure st
+    else if dx.fg.isSome && (!overwrite || fgEquiv sx dx) then pure st
+    else penCopyAttr st dst src
+  let _ ← penRef st src >>= fun _ => (pure () : Out Unit)        -- tickit_pen_has_attr(src, BG), …
+  let st ← penThaw st dst
+  if keepsSrc then penUnref st src else pure st
+
+/-- `colournames[]`. -/
+def colourNames : List (String × Int) :=
+  [("black", 0), ("red", 1), ("green", 2), ("yellow", 3), ("blue", 4), ("magenta", 5), ("cyan", 6), ("white", 7),
+   ("grey", 8), ("brown", 94), ("orange", 208), ("pink", 212), ("purple", 128)]
+
+def isDigit (b : UInt8) : Bool := 0x30 ≤ b && b ≤ 0x39
+def hexVal (b : UInt8) : Option Nat :=
+  if 0x30 ≤ b && b ≤ 0x39 then some (b.toNat - 0x30)
+  else if 0x61 ≤ b && b ≤ 0x66 then some (b.toNat - 0x61 + 10)
+  else if 0x41 ≤ b && b ≤ 0x46 then some (b.toNat - 0x41 + 10)
+  else none
+
+/-- The parse of `tickit_pen_set_colour_attr_desc` for descriptions of the supported shape (no leading blank or
+    sign; what follows `#` is hexadecimal digits only): `none` = unsupported, `some none` = rejected,
+    `some (some (index, rgb))` = accepted. -/
+def parseDesc (desc : List UInt8) : Option (Option (Int × Option (Nat × Nat × Nat))) :=
+  let hiP := desc.take 3 == [0x68, 0x69, 0x2d]
+  let d := if hiP then desc.drop 3 else desc
+  let hi : Int := if hiP then 8 else 0
+  let before := d.takeWhile (· ≠ 0x23)
+  let hasHash := before.length < d.length
+  let after := d.drop (before.length + 1)
+  let hexes := after.mapM hexVal
+  let trimmed := (before.reverse.dropWhile (· = 0x20)).reverse
+  match d.head? with
+  | some c => if c = 0x20 || c = 0x2b || c = 0x2d || c = 0x09 then none else
+    match (if hasHash then hexes else some []) with
+    | none => none
+    | some hs =>
+      let rgb : Option (Nat × Nat × Nat) :=
+        match hs with
+        | [a, b, c, e, f] => some (a * 16 + b, c * 16 + e, f)
+        | a :: b :: c :: e :: f :: g :: _ => some (a * 16 + b, c * 16 + e, f * 16 + g)
+        | _ => none
+      if isDigit c then
+        let digits := d.takeWhile isDigit
+        let val : Int := digits.foldl (fun v x => v * 10 + ((x.toNat - 0x30 : Nat) : Int)) 0
+        if hiP && val > 7 then some none else some (some (val + hi, rgb))
+      else
+        match colourNames.find? (fun nc => trimmed.length ≤ nc.1.length ∧ nc.1.toUTF8.toList.take trimmed.length = trimmed) with
+        | some nc => some (some ((if nc.2 < 8 && hiP then nc.2 + hi else nc.2), rgb))
+        | none => some none
+  | none =>
+    -- empty description: len = 0 matches the first name
+    some (some ((if hiP then 8 else 0), none))
+
+/-- `tickit_pen_set_colour_attr_desc(pen, FG, desc)`: returns whether the description was accepted. -/
+def penSetDesc (st : St) (k : Nat) (desc : List UInt8) : Option (Out (St × Bool)) :=
+  match parseDesc desc with
+  | none => none
+  | some none => some (pure (st, false))
+  | some (some (val, rgb)) => some (do
+      let st ← penFreeze st k
+      let st ← penSetColour st k val
+      let st ← match rgb with
+        | some c => penSetRgb st k c
+        | none => pure st
+      let st ← penThaw st k
+      pure (st, true))
+
 /-- `tickit_term_unref` (→ `tickit_term_destroy`). -/
 def termUnref (st : St) : Out St :=
   if st.term.freed then .ub .mem "use of freed terminal"
@@ -423,22 +613,25 @@ def termUnref (st : St) : Out St :=
   (`destroyT`, which returns the windows it freed, in the order they were freed) and releases their belongings
   afterwards (`releaseWin`). -/
 
+/-- What a cascade reports: the tree, the windows freed (in order), and the children whose creation reference a
+    dying parent has dropped (whether or not they survived). -/
+abbrev Casc3 := Tree × List Id × List Id
+
 /-- One turn of the children loop of `tickit_window_destroy`
     (`for(child = first_child; child; child = next) { next = child->next; … }`). -/
-def destroyStep (cfg : Cfg) (unrefChild : Tree → Id → Out (Tree × List Id)) (acc : Tree × List Id) (c : Id) :
-    Out (Tree × List Id) := do
+def destroyStep (cfg : Cfg) (unrefChild : Tree → Id → Out Casc3) (acc : Casc3) (c : Id) : Out Casc3 := do
   let _ ← ofRes (WinTree.get acc.1 c)                      -- next = child->next
   if cfg.destroyClosesChildren then
     let t ← closeT cfg acc.1 c
     let r ← unrefChild t c
-    pure (r.1, acc.2 ++ r.2)
+    pure (r.1, acc.2.1 ++ r.2.1, acc.2.2 ++ (c :: r.2.2))
   else
     let r ← unrefChild acc.1 c
     match r.1.wins[c]? with
     | none => .ub .mem s!"unknown window {c}"
     | some cw =>
       if cw.freed then .ub .mem s!"tickit_window_destroy: child->parent = NULL written into freed child {c}"
-      else pure (WinTree.set r.1 c { cw with parent := none }, acc.2 ++ r.2)
+      else pure (WinTree.set r.1 c { cw with parent := none }, acc.2.1 ++ r.2.1, acc.2.2 ++ (c :: r.2.2))
 
 /-- The end of `tickit_window_destroy` for the root: after the repair the requests still queued are freed; the
     drag context goes with the struct. -/
@@ -459,33 +652,32 @@ def rootCleanupIf (cfg : Cfg) (t : Tree) (w : Win) : Tree :=
 
 /-- `tickit_window_destroy` on the tree, given the function that drops one reference of a child.
     Returns the tree and the windows freed (in order). -/
-def destroyTWith (cfg : Cfg) (unrefChild : Tree → Id → Out (Tree × List Id)) (t : Tree) (win : Id) :
-    Out (Tree × List Id) := do
+def destroyTWith (cfg : Cfg) (unrefChild : Tree → Id → Out Casc3) (t : Tree) (win : Id) : Out Casc3 := do
   let w ← ofRes (WinTree.get t win)
-  let r ← w.children.foldlM (destroyStep cfg unrefChild) (t, [])
+  let r ← w.children.foldlM (destroyStep cfg unrefChild) (t, [], [])
   let t := r.1
   let w ← ofRes (WinTree.get t win)
   let t ← purgeIfLinked cfg t win w
   let w ← ofRes (WinTree.get t win)
   let t ← closeIfOpen cfg t win w
   let w ← ofRes (WinTree.get t win)
-  pure (WinTree.set (rootCleanupIf cfg t w) win { w with freed := true }, r.2 ++ [win])
+  pure (WinTree.set (rootCleanupIf cfg t w) win { w with freed := true }, r.2.1 ++ [win], r.2.2)
 
 /-- `tickit_window_unref` on the tree, given `tickit_window_destroy`. -/
-def unrefTWith (destroy : Tree → Id → Out (Tree × List Id)) (t : Tree) (win : Id) : Out (Tree × List Id) := do
+def unrefTWith (destroy : Tree → Id → Out Casc3) (t : Tree) (win : Id) : Out Casc3 := do
   let w ← ofRes (WinTree.get t win)
   if w.refcount < 1 then .ub .abort s!"tickit_window_unref: invalid refcount on window {win}"
   else
     let t := WinTree.set t win { w with refcount := w.refcount - 1 }
-    if w.refcount - 1 = 0 then destroy t win else pure (t, [])
+    if w.refcount - 1 = 0 then destroy t win else pure (t, [], [])
 
 /-- `tickit_window_destroy` with the recursion budget `fuel` (depth of the subtree). -/
-def destroyT (cfg : Cfg) : Nat → Tree → Id → Out (Tree × List Id)
+def destroyT (cfg : Cfg) : Nat → Tree → Id → Out Casc3
   | 0, _, _ => .fuel
   | fuel + 1, t, win => destroyTWith cfg (unrefTWith (destroyT cfg fuel)) t win
 
 /-- `tickit_window_unref` on the tree. -/
-def unrefT (cfg : Cfg) (t : Tree) (win : Id) : Out (Tree × List Id) :=
+def unrefT (cfg : Cfg) (t : Tree) (win : Id) : Out Casc3 :=
   unrefTWith (destroyT cfg (chainFuel t)) t win
 
 /-- Drop the pen a window holds (`if(win->pen) tickit_pen_unref(win->pen)`). -/
@@ -508,19 +700,15 @@ def releaseWin (st : St) (win : Id) : Out St := do
     else termUnref st
   else pure st
 
-/-- The application's bookkeeping after windows have died (the harness's `sync_consumed`): a window that was
-    still linked to a parent that is now dead has lost its creation reference to that parent. -/
-def consume (st : St) (dead : List Id) : St :=
-  { st with wx := st.wx.map (fun x =>
-      match x.cparent with
-      | some p => if !x.consumed && !x.detached && dead.contains p then { x with consumed := true, appRefs := x.appRefs - 1 } else x
-      | none => x) }
+/-- The application's bookkeeping after a cascade (the harness's `sync_consumed`): for every child whose creation
+    reference a dying parent has dropped, the application gives up one of its references. -/
+def consume (st : St) (dropped : List Id) : St :=
+  dropped.foldl (fun st i => setX st i { getX st i with appRefs := (getX st i).appRefs - 1 }) st
 
 /-- `tickit_window_unref`. -/
 def unrefW (cfg : Cfg) (st : St) (win : Id) : Out St := do
-  let (t, dead) ← unrefT cfg st.tree win
-  let st ← dead.foldlM releaseWin { st with tree := t }
-  pure (consume st dead)
+  let r ← unrefT cfg st.tree win
+  r.2.1.foldlM releaseWin (consume { st with tree := r.1 } r.2.2)
 
 /-- `tickit_window_ref`. -/
 def refW (st : St) (win : Id) : Out St := do
@@ -549,7 +737,7 @@ def newWin (st : St) (parent : Id) (rect : Rect) (hidden lowest rootParent steal
   let id := st.tree.wins.size
   let w : Win := { parent := some pr.1, rect := pr.2, isVisible := !hidden, stealInput := steal }
   let t : Tree := { st.tree with wins := st.tree.wins.push w }
-  let wx := (st.wx ++ Array.replicate (id - st.wx.size) ({} : WinX)).push { cparent := some pr.1 }
+  let wx := (st.wx ++ Array.replicate (id - st.wx.size) ({} : WinX)).push {}
   let t ← doHC t (if lowest then .insertLast else .insertFirst) pr.1 id
   pure ({ st with tree := t, wx := wx }, id)
 
@@ -664,11 +852,6 @@ def heldW (st : St) (i : Id) : Bool :=
   | none => false
   | some w => !w.freed && (getX st i).appRefs > 0
 
-def heldP (st : St) (k : Nat) : Bool :=
-  match st.pens[k]? with
-  | none => false
-  | some p => !p.freed && p.appRefs > 0
-
 def heldT (st : St) : Bool := !st.term.freed && st.term.appRefs > 0
 
 /-- The window still belongs to the tree: its parent chain reaches the (live) root. -/
@@ -707,7 +890,7 @@ def simpleOp (cfg : Cfg) (st : St) (a : Act) (self : Option (Id × Int)) : Optio
   | .ref w => if heldW st w then
       some (refW (setX st w { getX st w with appRefs := (getX st w).appRefs + 1 }) w) else none
   | .close w => if heldW st w then
-      some (liftT (setX st w { getX st w with detached := true }) (closeT cfg st.tree w)) else none
+      some (liftT st (closeT cfg st.tree w)) else none
   | .restack c w => if usableW st w && isRestack c then some (liftT st (request st.tree c w)) else none
   | .hide w => if usableW st w then some (liftT st (hideT st.tree w)) else none
   | .«show» w => if usableW st w then some (liftT st (showT st.tree w)) else none
